@@ -505,11 +505,19 @@ Definition case_nontrivial (c : scase) : bool :=
 (* known-finding predicates (exactly the failing shape of each finding) *)
 Definition close_while_gated (phs : list phase) : bool :=
   existsb (fun ph => existsb (act_eqb ACall) (p_acts ph) && negb (p_gate ph)) phs.
-(* F08g: service.Close() before service.Start was entered is refused / lost, the service then runs for ever *)
+(* F08g: service.Close() reaches the service while a call of service.Start is launched but not yet entered
+   (held at the gate by the harness, or simply not yet scheduled): the call is entered after Close has
+   returned; a start-once or fresh service then runs for ever, a sticky or already stopped one returns
+   at once.  The predicate asks that EVERY end state of the model with this observation carries the
+   ghost flag of that race, so a failure that the model explains otherwise is not covered. *)
+Definition explained_by_early (c : scase) : bool :=
+  let ss := filter (fun s => obs_eqb (project s) (k_obs c)) (run_phases (cfg_new (k_kind c)) (k_phases c)) in
+  match ss with [] => false | _ => forallb h_early ss end.
 Definition kf_close_before_service_start (c : scase) : bool :=
   let o := k_obs c in
-  negb (is_sticky (k_kind c)) && close_while_gated (k_phases c) && negb (C18_check c) &&
-  (1 <=? o_close o) && (o_close o <=? 3) && negb (Nat.eqb (o_start o) 0) && Nat.eqb (o_g o) 2.
+  negb (C18_check c) && explained_by_early c &&
+  (1 <=? o_close o) && (o_close o <=? 3) && negb (Nat.eqb (o_start o) 0) &&
+  ((negb (is_sticky (k_kind c)) && Nat.eqb (o_g o) 2) || (Nat.eqb (o_g o) 0 && o_late o)).
 (* F08h: a start-once service is not restarted after a panic in its Start *)
 Definition kf_restart_start_once (c : scase) : bool :=
   let o := k_obs c in
